@@ -1,6 +1,7 @@
 import VoluteModel.Model.Api
 import VoluteModel.Model.Sop
 import VoluteModel.Model.Optim
+import VoluteModel.Model.Mip
 import VoluteModel.Spec.EvalText
 
 /-!
@@ -525,6 +526,35 @@ def step (line : String) : String :=
     (match tabs.mapM parseTab with
     | some ls => s!"ok {showCubes (Optim.enumerateValidCubesMulti ls)} {showEcubes (Optim.enumerateValidEcubesMulti ls)}"
     | none => "bad-op")
+  -- C18: the integer programme an entry point hands to the solver, in canonical text
+  | "mipilp" :: kind :: a :: x :: o :: tabs =>
+    (match a.toNat?, x.toNat?, o.toNat?, tabs.mapM parseTab with
+    | some a, some x, some o, some ls =>
+      let n0 := (ls.head?.map (·.n)).getD 0
+      let A : Int := a
+      let X : Int := if kind == "sop" then -1 else x
+      let O : Int := o
+      -- `check()`: same number of variables, costs at least 1
+      let okCosts := if kind == "esop" then decide (A ≥ 1) && decide (X ≥ 1)
+        else decide (A ≥ 1) && decide (O ≥ 1) && (decide (X = -1) || decide (X ≥ 1))
+      if !(ls.all (fun l => l.n == n0)) || !okCosts then "panic"
+      else if kind == "esop" then
+        let terms := Mip.esopTerms ls
+        let P := Mip.esopProb ls A X
+        let cubes := terms.filterMap (fun t => match t with | .cube c => some c | _ => none)
+        let dom := ",".intercalate ((if P.K > 0 then ["U:b"] else []) ++ (if P.K > 0 && P.F > 0 then ["X:b"] else []) ++
+          (if P.F > 0 then ["N:c", "S:i"] else []))
+        s!"ok kind=esop F={P.F} cubes={showCubes cubes} ecubes=- dom={dom} obj={Mip.showTerms (Mip.objTerms P)} cons={Mip.showCons (Mip.esopCons P)}"
+      else if kind == "sop" || kind == "sopes" then
+        let terms := Mip.sopTerms ls X
+        let P := Mip.sopProb ls A X O
+        let cubes := terms.filterMap (fun t => match t with | .cube c => some c | _ => none)
+        let ecubes := terms.filterMap (fun t => match t with | .ecube e => some e | _ => none)
+        let dom := ",".intercalate ((if P.K > 0 then ["U:b"] else []) ++ (if P.K > 0 && P.F > 0 then ["X:b"] else []) ++
+          (if P.F > 0 then ["N:c"] else []))
+        s!"ok kind=sop F={P.F} cubes={showCubes cubes} ecubes={showEcubes ecubes} dom={dom} obj={Mip.showTerms (Mip.objTerms P)} cons={Mip.showCons (Mip.sopCons P)}"
+      else "bad-op"
+    | _, _, _, _ => "bad-op")
   | "mip" :: kind :: a :: x :: o :: tabs =>
     (match a.toNat?, x.toNat?, o.toNat?, tabs.mapM parseTab with
     | some a, some x, some o, some ls =>
